@@ -45,13 +45,13 @@ def check(ctx, tier, seed, t0):
             cmds.append('VGD %s -' % msg); specs.append(None); meta.append((p, 'Avtp_Vss_GetVssData(length query)'))
             cmds.append('VGD %s %x' % (msg, n)); specs.append('SVGD %s' % msg); meta.append((p, 'Avtp_Vss_GetVssData'))
     impl = vlib.run_harness(ctx, cmds)
-    out = vlib.run_oracle(ctx, cmds + [s for s in specs if s])
+    out = vlib.run_oracle(ctx, cmds + [s for s in specs if s], parallel=True)
     model = out[:len(cmds)]
     k = len(cmds)
     for j, (cmd, spec) in enumerate(zip(cmds, specs)):
         i, mo = impl[j], model[j]
         p, fn = meta[j]
-        if not (i == mo or (mo == 'OOB' and i.startswith('CRASH'))):
+        if not (i == mo or (mo == 'OOB' and i.startswith('CRASH')) or i.startswith('SKIPPED')):
             tie.append({'cmd': cmd, 'impl': i, 'model': mo})
         r = None
         if spec:
@@ -78,7 +78,7 @@ def check(ctx, tier, seed, t0):
         edge.append('VGD %s -' % p['msg'][:-2 * v[1]] if v[0] == 'scalar' else 'VGP %s 0' % p['msg'][:24])
     ei = vlib.run_harness(ctx, edge); em = vlib.run_oracle(ctx, edge)
     for cmd, i, mo in zip(edge, ei, em):
-        if not (i == mo or (mo == 'OOB' and i.startswith('CRASH'))):
+        if not (i == mo or (mo == 'OOB' and i.startswith('CRASH')) or i.startswith('SKIPPED')):
             tie.append({'cmd': cmd, 'impl': i, 'model': mo})
     dist['edge(short destination / truncated message)'] = len(edge)
     if tie and not failures:
